@@ -63,9 +63,18 @@ func genLifePlan(seed uint64, thorough bool) *Plan {
 			g.client = cy*10 + v
 			key := "g" + strconv.Itoa(cy) + "v" + strconv.Itoa(v)
 			items := []Item{{Op: "barrier", N: bar}, cmdItem("SET", key, "alive"), cmdItem("RPUSH", "shared", key)}
-			state := g.pick("idle", "mid-frame", "multi", "blocked", "not-reading", "busy")
+			state := g.pick("idle", "mid-frame", "multi", "blocked", "not-reading", "busy", "reblocked")
+			var helper *Client
 			switch state {
 			case "idle":
+			case "reblocked":
+				// blocked, released by CLIENT UNBLOCK, blocked again: the second
+				// block has to be ended by the termination
+				me := 1 + len(clients) // index in p.Clients (admin is 0)
+				items = append(items, cmdItem("CLIENT", "ID"), Item{Args: bs("BLPOP", "nothing"+strconv.Itoa(v), "0"), Tag: "released"},
+					cmdItem("PING"), Item{Args: bs(g.pick("BLPOP", "BRPOP"), "nothing"+strconv.Itoa(v), "0"), Tag: "blocked"})
+				helper = &Client{Name: "unblocker", Lazy: true, Items: []Item{{Op: "barrier", N: bar}, {Op: "await-blocked", N: int64(me)},
+					{Args: bs("CLIENT", "UNBLOCK", "$id:"+strconv.Itoa(me)), Tag: "helper"}}}
 			case "mid-frame":
 				items = append(items, Item{Raw: B("*3\r\n$3\r\nSET\r\n$" + strconv.Itoa(len(key)) + "\r\n" + key + "\r\n$5\r\nha"), NoReply: true, Tag: "half"})
 			case "multi":
@@ -94,6 +103,9 @@ func genLifePlan(seed uint64, thorough bool) *Plan {
 				depth = 8
 			}
 			clients = append(clients, Client{Name: "victim-" + state, Items: items, Depth: depth, Lazy: true})
+			if helper != nil {
+				clients = append(clients, *helper)
+			}
 		}
 		// admin: terminate at a tape-chosen moment after the victims got going
 		admin = append(admin, Item{Op: "barrier", N: bar})
